@@ -192,7 +192,8 @@ func RunScenario(t *testing.T, sc *Scenario) *Result {
 		return res
 	}
 	PIDStrings = sc.Str("idstrings", "")
-	defer func() { PIDStrings = "" }()
+	OwnPID = sc.Str("ownpid", "")
+	defer func() { PIDStrings, OwnPID = "", "" }()
 	// every protocol and proof call of the harness names its curve: the process-wide default curve
 	// (tss.SetCurve) must not matter. Odd runs execute with the other curve as the default.
 	if os.Getenv("VERIF_DEFAULT_CURVE") != "fixed" && sc.Run%2 == 1 {
